@@ -671,6 +671,42 @@ Proof.
   apply insert_nat_ssorted; [exact IH | rewrite sort_nat_In; exact Hx].
 Qed.
 
+Fixpoint lsorted (l : list nat) : Prop :=
+  match l with [] => True | x :: r => (forall y, In y r -> x <= y) /\ lsorted r end.
+
+Lemma insert_nat_lsorted x l : lsorted l -> lsorted (insert_nat x l).
+Proof.
+  induction l as [|z l IH]; cbn; intros HS; [tauto|].
+  destruct HS as [Hz HS]. destruct (x <=? z) eqn:E.
+  - apply Nat.leb_le in E. cbn. split; [|tauto].
+    intros y [<-|Hy]; [lia | specialize (Hz y Hy); lia].
+  - apply Nat.leb_gt in E. cbn. split.
+    + intros y Hy. apply insert_nat_In in Hy. destruct Hy as [->|Hy]; [lia | auto].
+    + apply IH; tauto.
+Qed.
+
+Lemma sort_nat_lsorted l : lsorted (sort_nat l).
+Proof. induction l as [|x l IH]; cbn; [exact I | apply insert_nat_lsorted; exact IH]. Qed.
+
+Lemma dedup_adj_In y l : In y (dedup_adj l) <-> In y l.
+Proof.
+  induction l as [|x r IH]; [tauto|]. cbn [dedup_adj]. destruct r as [|z r']; [tauto|].
+  destruct (x =? z) eqn:E.
+  - apply Nat.eqb_eq in E. subst z. rewrite IH. cbn. tauto.
+  - cbn [In]. rewrite IH. cbn [In]. tauto.
+Qed.
+
+Lemma dedup_adj_ssorted l : lsorted l -> ssorted (dedup_adj l).
+Proof.
+  induction l as [|x r IH]; [tauto|]. intros [Hx HS]. cbn [dedup_adj]. destruct r as [|z r'].
+  - cbn. tauto.
+  - destruct (x =? z) eqn:E; [apply IH; exact HS|].
+    apply Nat.eqb_neq in E. cbn [ssorted]. split; [|apply IH; exact HS].
+    intros y Hy. apply (proj1 (dedup_adj_In _ _)) in Hy. destruct HS as [Hz _].
+    assert (x <= z) by (apply Hx; left; reflexivity).
+    destruct Hy as [<-|Hy]; [lia | specialize (Hz y Hy); lia].
+Qed.
+
 Lemma nodupb_NoDup l : nodupb l = true -> NoDup l.
 Proof.
   induction l as [|x l IH]; cbn; intros H; [constructor|].
@@ -737,18 +773,20 @@ Proof.
 Qed.
 
 Lemma nonkey_nth_skip rw rk k :
-  NoDup rk -> k < length (nonkey_cols rw rk) ->
-  nth k (nonkey_cols rw rk) 0 = skip (sort_nat rk) k.
+  k < length (nonkey_cols rw rk) ->
+  nth k (nonkey_cols rw rk) 0 = skip (dedup_adj (sort_nat rk)) k.
 Proof.
-  intros ND Hk.
-  assert (E : nonkey_cols rw rk = nkfrom 0 rw (sort_nat rk)).
-  { unfold nonkey_cols, nkfrom. apply filter_ext_in'. intros c _. f_equal.
-    destruct (memb c rk) eqn:E1, (memb c (sort_nat rk)) eqn:E2; try reflexivity.
+  intros Hk.
+  assert (HM : forall c, memb c rk = memb c (dedup_adj (sort_nat rk))).
+  { intros c. destruct (memb c rk) eqn:E1, (memb c (dedup_adj (sort_nat rk))) eqn:E2; try reflexivity.
     - apply (proj1 (memb_In _ _)) in E1. apply (proj2 (sort_nat_In _ _)) in E1.
-      apply (proj2 (memb_In _ _)) in E1. congruence.
-    - apply (proj1 (memb_In _ _)) in E2. apply (proj1 (sort_nat_In _ _)) in E2.
-      apply (proj2 (memb_In _ _)) in E2. congruence. }
-  rewrite E in *. rewrite (nkfrom_skip _ (sort_nat_ssorted rk ND) 0 rw k); [reflexivity | lia | exact Hk].
+      apply (proj2 (dedup_adj_In _ _)) in E1. apply (proj2 (memb_In _ _)) in E1. congruence.
+    - apply (proj1 (memb_In _ _)) in E2. apply (proj1 (dedup_adj_In _ _)) in E2.
+      apply (proj1 (sort_nat_In _ _)) in E2. apply (proj2 (memb_In _ _)) in E2. congruence. }
+  assert (E : nonkey_cols rw rk = nkfrom 0 rw (dedup_adj (sort_nat rk))).
+  { unfold nonkey_cols, nkfrom. apply filter_ext_in'. intros c _. rewrite HM. reflexivity. }
+  rewrite E in *.
+  rewrite (nkfrom_skip _ (dedup_adj_ssorted _ (sort_nat_lsorted rk)) 0 rw k); [reflexivity | lia | exact Hk].
 Qed.
 
 Lemma project_remap (g : nat -> nat) p (t1 t2 : tuple) :
@@ -761,16 +799,16 @@ Qed.
 (* the fused projection reads the same values from (left ++ ALL right columns) as the original one
    reads from the join output (left ++ right non-key columns) *)
 Lemma jfm_project lw rw rk p (a b : tuple) :
-  length a = lw -> length b = rw -> NoDup rk ->
+  length a = lw -> length b = rw ->
   Forall (fun i => i < lw + length (nonkey_cols rw rk)) p ->
   project p (a ++ excluding rk b) = project (remap_jfm lw rk p) (a ++ b).
 Proof.
-  intros Ha Hb ND Hp. unfold remap_jfm. apply project_remap. intros i Hi.
+  intros Ha Hb Hp. unfold remap_jfm. apply project_remap. intros i Hi.
   rewrite Forall_forall in Hp. specialize (Hp i Hi).
   destruct (i <? lw) eqn:E.
   - apply Nat.ltb_lt in E. rewrite !nth_error_app1 by lia. reflexivity.
-  - apply Nat.ltb_ge in E. fold skipstep. fold (skip (sort_nat rk) (i - lw)).
-    rewrite <- (nonkey_nth_skip rw rk (i - lw) ND) by lia.
+  - apply Nat.ltb_ge in E. fold skipstep. fold (skip (dedup_adj (sort_nat rk)) (i - lw)).
+    rewrite <- (nonkey_nth_skip rw rk (i - lw)) by lia.
     rewrite !nth_error_app2 by lia. rewrite Ha. replace (lw + nth (i - lw) (nonkey_cols rw rk) 0 - lw)
       with (nth (i - lw) (nonkey_cols rw rk) 0) by lia.
     rewrite excluding_spec, Hb. set (nk := nonkey_cols rw rk) in *.
@@ -813,7 +851,6 @@ Proof.
   pose proof Ij as [Wj Vj]. cbn [wfd novoid] in Wj, Vj. norm_hyps.
   pose proof (den_width d l (proj1 Il) (proj2 Il)) as HL.
   pose proof (den_width d r (proj1 Ir) (proj2 Ir)) as HR. rewrite Forall_forall in HL, HR.
-  assert (ND : NoDup rk) by (apply nodupb_NoDup; assumption).
   rewrite Hs0 in Hp.
   split.
   - split; cbn [wfd novoid]; [|solve_andb]. solve_andb; try (apply forallb_lt_Forall; assumption).
@@ -821,8 +858,8 @@ Proof.
       apply in_map_iff in Hj. destruct Hj as [i [E Hi]]. subst j.
       rewrite Forall_forall in Hp. specialize (Hp i Hi).
       destruct (i <? width l) eqn:E; [apply Nat.ltb_lt in E; lia|]. apply Nat.ltb_ge in E.
-      fold skipstep. fold (skip (sort_nat rk) (i - width l)).
-      rewrite <- (nonkey_nth_skip (width r) rk (i - width l) ND) by lia.
+      fold skipstep. fold (skip (dedup_adj (sort_nat rk)) (i - width l)).
+      rewrite <- (nonkey_nth_skip (width r) rk (i - width l)) by lia.
       assert (nth (i - width l) (nonkey_cols (width r) rk) 0 < width r).
       { apply (nonkey_cols_lt (width r) rk). apply nth_In. lia. }
       lia.
